@@ -132,6 +132,13 @@ def handleCodec (cmd : String) (args : List SExp) : String :=
       "valid=" ++ (if Lzss.validB head gs pad then "1" else "0") ++ " " ++ toHexW (Lzss.encodeFile head gs pad) ++
         " " ++ toHexW (head ++ Lzss.expand gs [])
     | _, _, _ => "bad-args"
+  | "lzss-compress", [x, pd] =>
+    match x.bytes?, pd.nat? with
+    | some data, some pad =>
+      match Lzss.compress data pad with
+      | some img => "ok " ++ toHexW img
+      | none => "none"
+    | _, _ => "bad-args"
   | _, _ => "bad-args"
 
 end Pyctr
